@@ -11,6 +11,5 @@ func remarshal(in any, out any) bool {
 	return json.Unmarshal(b, out) == nil
 }
 
-
 // C03Child is set by c03.go (child-process entry point).
 var C03Child = func(args []string) {}
